@@ -264,7 +264,7 @@ fn cmd_check(args: &[String], reg: &Reg, table: ProfileTable) -> i32 {
     let workers: usize = arg_val(args, "--workers")
         .and_then(|s| s.parse().ok())
         .unwrap_or_else(|| std::thread::available_parallelism().map(|n| n.get()).unwrap_or(4));
-    let default_runs: u64 = if tier == "thorough" { 1_000_000 } else { 4_000 };
+    let default_runs: u64 = if tier == "thorough" { 1_000_000 } else { 16_000 };
     let runs: u64 = arg_val(args, "--runs").and_then(|s| s.parse().ok()).unwrap_or(default_runs);
     let cap_s: u64 = arg_val(args, "--cap-seconds")
         .and_then(|s| s.parse().ok())
